@@ -74,6 +74,10 @@ def run(d, tier="quick"):
                                        time.time() - t0, viol[:2]))
     if r.returncode == 2:
         print(r.stdout[-1500:])
+    head = sh("git -C %s rev-parse --short HEAD" % REPO).stdout.strip()
+    with open(os.path.join(d, "result.json"), "w") as f:
+        json.dump({"check": "./check %s --tier %s" % (pid, tier), "caught": caught, "exit": r.returncode,
+                   "violation_lines": viol[:4], "wall_s": round(time.time() - t0), "repo_head": head}, f, indent=1)
     return caught, viol
 
 
